@@ -464,25 +464,26 @@ def check_wellformed(g: Grammar) -> None:
         if ws.kind != "rule" or not ws.has("no_skip_ws"):
             raise Invalid("Whitespace must be a @no_skip_ws rule")
         # everything reachable from Whitespace must be @no_skip_ws
-        seen, todo = set(), ["Whitespace"]
+        # (a rule that is only *included* runs with the includer's settings: its own directives do not matter)
+        seen, todo = set(), [("Whitespace", False)]
         while todo:
-            n = todo.pop()
-            if n in seen:
+            n, included = todo.pop()
+            if (n, included) in seen:
                 continue
-            seen.add(n)
+            seen.add((n, included))
             t = g.rule(n)
             if t is None:
                 continue
             if t.kind == "rule":
-                if not t.has("no_skip_ws"):
+                if not included and not t.has("no_skip_ws"):
                     raise Invalid("rules called by Whitespace must be @no_skip_ws")
                 if t.has("memoize") or t.has("leftrec") or t.checks():
                     raise Invalid("keep the Whitespace cone simple")
                 for e in subexprs(t.body):
                     if isinstance(e, Ref):
-                        todo.append(e.rule)
+                        todo.append((e.rule, False))
                     if isinstance(e, Inc):
-                        todo.append(e.rule)
+                        todo.append((e.rule, True))
     # type-level validity (raises Invalid)
     check_types(g)
 
